@@ -83,13 +83,31 @@ func (f fileAPI) Stat() (fs.FileInfo, error) {
 	return f.fsys.Stat(f.path)
 }
 
+// osRelFile is the os-release file placed next to a package database ("" path: none).
+type osRelFile struct {
+	Path    string `json:"path"`
+	Content string `json:"content"`
+}
+
 // extractBytes runs one extractor on one in-memory file placed at path in an otherwise
 // (almost) empty virtual filesystem, after checking that FileRequired accepts the path.
 func extractBytes(ex filesystem.Extractor, path string, content []byte) (inventory.Inventory, error, error) {
-	fsys := fstest.MapFS{
-		path:             &fstest.MapFile{Data: content, Mode: 0o644, ModTime: time.Unix(1700000000, 0)},
-		"etc/os-release": &fstest.MapFile{Data: []byte(osRelease), Mode: 0o644},
+	return extractBytesFS(ex, path, content, nil, nil)
+}
+
+// extractBytesFS is extractBytes with neighbour files (path -> content) and a chosen
+// os-release file (nil: the default Debian one at etc/os-release).
+func extractBytesFS(ex filesystem.Extractor, path string, content []byte, neighbours map[string][]byte, osrel *osRelFile) (inventory.Inventory, error, error) {
+	fsys := fstest.MapFS{}
+	if osrel == nil {
+		fsys["etc/os-release"] = &fstest.MapFile{Data: []byte(osRelease), Mode: 0o644}
+	} else if osrel.Path != "" {
+		fsys[osrel.Path] = &fstest.MapFile{Data: []byte(osrel.Content), Mode: 0o644}
 	}
+	for p, b := range neighbours {
+		fsys[p] = &fstest.MapFile{Data: b, Mode: 0o644, ModTime: time.Unix(1700000000, 0)}
+	}
+	fsys[path] = &fstest.MapFile{Data: content, Mode: 0o644, ModTime: time.Unix(1700000000, 0)}
 	if !ex.FileRequired(fileAPI{fsys, path}) {
 		return inventory.Inventory{}, nil, fmt.Errorf("FileRequired(%q) = false for extractor %s", path, ex.Name())
 	}
